@@ -582,3 +582,92 @@ impl Cell for Fat {
         self.0[0] = (self.0[0] & 0xffff) | ((k as u64) << 16)
     }
 }
+
+// ---------------------------------------------------------------------------------------------
+/// An element type WITHOUT drop glue whose Clone / Default / comparisons are caller code (they
+/// tick the fuse): `mem::needs_drop` is false for it, yet cloning it can panic.
+#[derive(Debug)]
+pub struct Nd {
+    pub id: u64,
+    pub key: u8,
+}
+fn plain_id() -> u64 {
+    with(|l| {
+        l.zs_created += 1;
+        l.zs_created
+    })
+}
+impl Elem for Nd {
+    const TRACKED: bool = false;
+    const ZST: bool = false;
+    const NAME: &'static str = "Nd";
+    fn mint(key: u8) -> Self {
+        Nd { id: plain_id(), key }
+    }
+    fn id(&self) -> u64 {
+        self.id
+    }
+    fn key(&self) -> u8 {
+        self.key
+    }
+}
+impl Clone for Nd {
+    fn clone(&self) -> Self {
+        tick();
+        Nd { id: plain_id(), key: self.key }
+    }
+}
+impl Default for Nd {
+    fn default() -> Self {
+        tick();
+        Nd { id: plain_id(), key: 0 }
+    }
+}
+impl PartialEq for Nd {
+    fn eq(&self, o: &Self) -> bool {
+        tick();
+        self.key == o.key
+    }
+}
+impl Eq for Nd {}
+impl PartialOrd for Nd {
+    fn partial_cmp(&self, o: &Self) -> Option<Ordering> {
+        Some(self.cmp(o))
+    }
+}
+impl Ord for Nd {
+    fn cmp(&self, o: &Self) -> Ordering {
+        tick();
+        self.key.cmp(&o.key)
+    }
+}
+impl std::hash::Hash for Nd {
+    fn hash<H: std::hash::Hasher>(&self, h: &mut H) {
+        tick();
+        self.key.hash(h)
+    }
+}
+
+/// 40 bytes (wider than four machine words), plain `Copy`: the id is spread over all lanes and
+/// reads back poisoned when the lanes disagree (a partial copy).
+#[derive(Clone, Copy, Default, PartialEq, Eq, PartialOrd, Ord, Hash, Debug)]
+pub struct W40(pub [u64; 5]);
+impl Elem for W40 {
+    const TRACKED: bool = false;
+    const ZST: bool = false;
+    const NAME: &'static str = "W40";
+    fn mint(key: u8) -> Self {
+        let v = (plain_id() << 2) | (key as u64 & 3);
+        W40([v, !v, v ^ 0x5555, v.wrapping_mul(3), v])
+    }
+    fn id(&self) -> u64 {
+        let [v, a, b, c, d] = self.0;
+        if a == !v && b == v ^ 0x5555 && c == v.wrapping_mul(3) && d == v { v } else { v | (1 << 62) }
+    }
+    fn key(&self) -> u8 {
+        (self.0[0] & 3) as u8
+    }
+    fn ord_key(&self) -> u64 {
+        self.0[0]
+    }
+}
